@@ -301,4 +301,15 @@ pub fn disas_operand(variant: &str, v: u64) -> String {
 }
 """)
     o.append("pub const SKIPPED_BUILDER_METHODS: &[&str] = &[%s];" % ", ".join('"%s"' % x for x in sorted(set(skipped))))
+    # typed decoder requests: one arm per generated method of autogen_decode_operand.rs
+    import re as _re
+    dsrc = tables.src("rspirv/binary/autogen_decode_operand.rs").text
+    arms = []
+    for m_ in _re.finditer(r"pub fn (\w+)\(&mut self\) -> Result<spirv::(\w+)>", dsrc):
+        meth, kind = m_.group(1), m_.group(2)
+        bits = "v.bits()" if kind in masks else "v as u32"
+        arms.append('        "%s" => match d.%s() { Ok(v) => format!("{{\\"ok\\": true, \\"bits\\": {}, \\"offset\\": {}}}", %s, d.offset()), '
+                    'Err(e) => format!("{{\\"ok\\": false, \\"error\\": {}, \\"offset\\": {}}}", crate::ops::jstr(&format!("{:?}", e)), d.offset()) },' % (meth, meth, bits))
+    o.append("pub fn typed_request(meth: &str, w: u32) -> String {\n    let bytes = w.to_le_bytes();\n    let mut d = rspirv::binary::Decoder::new(&bytes);\n    match meth {\n"
+             + "\n".join(arms) + '\n        _ => "{\\"error\\": \\"unknown method\\"}".to_string(),\n    }\n}\n')
     return "\n".join(o) + "\n"
